@@ -663,8 +663,14 @@ class FA:
             v = self.av(st.value)
             t = st.target
             if isinstance(t, ast.Name):
+                # numpy / torch / numba: `a += b` on an array works IN PLACE on the caller's storage
+                from .rules.bind import name_role
+                if name_role(t.id) in ('STRING', 'PHASE', 'COEF') and not (t.id == 'p'):
+                    self.store(self.env.get(t.id, EMPTY), 'store')
                 self.env[t.id] = self.env.get(t.id, EMPTY) | self.copy_of(v)
             elif isinstance(t, ast.Attribute):
+                if t.attr in ('gs', 'ps', 'cs', 'g'):
+                    self.store(self.field(self.av(t.value), t.attr), 'store')
                 self.attr_store(self.av(t.value), t.attr, v)
             elif isinstance(t, ast.Subscript):
                 self.store(self.av(t.value), 'store')
